@@ -223,13 +223,13 @@ func startWatchdog(res *hx.Result, o hx.Opts) {
 			if watchTick != lastTick {
 				lastTick, lastChange = watchTick, time.Now()
 			}
-			stuck := time.Since(lastChange) > 120*time.Second
+			stuck := time.Since(lastChange) > hx.StallLimit(120*time.Second)
 			lines := append([]string(nil), watchLines...)
 			watchMu.Unlock()
 			if stuck {
 				prop := o.Prop
 				res.Report(hx.Finding{Kind: "violation", Property: prop, Name: "C06.every_sleeper_wakes / C14: every call terminates",
-					What:    "a scheduler call did not return and no goroutine made progress for 120 s (spinning or deadlocked under bq.lock) after the last op of this history",
+					What:    "a scheduler call did not return and no goroutine made progress for the load-scaled stall limit (at least 240 s) (spinning or deadlocked under bq.lock) after the last op of this history",
 					History: lines, Sig: hx.Sig(prop, "violation", "hang")})
 				res.Write(o)
 				os.Exit(0)
